@@ -343,11 +343,14 @@ def stream_line(art, extents, extra_init=(), tids=None, parts=False):
                 if key in src.encoded_ranges:
                     rng = src.encoded_ranges[key]
                     base = src.address + rng.offset
-                    wsrc.append(int(base + rng.weight_offset))
+                    # a core without channels in this depth slice gets a zero-length range (the decoder drops those)
+                    if int(rng.weight_bytes) > 0:
+                        wsrc.append(int(base + rng.weight_offset))
                     if cmd.scale_tensor is not None:
                         srng = cmd.scale_tensor.encoded_ranges[key]
-                        ssrc.append(int(cmd.scale_tensor.address + srng.offset))
-                    else:
+                        if int(srng.scale_bytes) > 0:
+                            ssrc.append(int(cmd.scale_tensor.address + srng.offset))
+                    elif int(rng.scale_bytes) > 0:
                         ssrc.append(int(base))
         lutsrc, lutlen = -1, 0
         luts = [t for t in op.inputs if t.purpose == TensorPurpose.LUT]
